@@ -32,6 +32,7 @@ macro_rules! go {
         let ok = s == want;
         // long outputs are reported by digest to keep lines short; the model does the same
         let shown = if s.len() > 80 { format!("len{}:{}:{}:{:08x}", s.len(), &s[..24], &s[s.len() - 24..], fnv(&s)) } else { s.clone() };
+        let shown: String = shown.chars().map(|c| if c.is_ascii_graphic() { c.to_string() } else { format!("\\x{:02x}", c as u32) }).collect();
         format!("out={} | orc={}", shown, if ok { "ok".to_string() } else { "FAIL(format)".to_string() })
     }};
 }
